@@ -37,6 +37,7 @@ func rulesC19(c *Ctx) {
 	c.Floor("C19.CMP", 5)
 	ruleIdTieBreak(c, "C19.TIEBREAK", p.SSAFunc(p.Method("objectz", "ObjectStore", "newRowComparator")))
 	ruleRowComparatorFirstNonZero(c, "C19.CMP", p.SSAFunc(p.Method("objectz", "compoundObjectComparator", "compare")))
+	ruleEvalPure(c, "C19.PURE", "ast", "objectz")
 	ruleC19Null(c)
 	ruleUseBeforeCheck(c, "C19.USEBEFORECHECK", c.prodFuncs("objectz"))
 	ruleC19IteratorTotal(c)
